@@ -345,7 +345,7 @@ structure Code where
 
 /-- `time.Time.Truncate(d)` on an instant in Unix ns: multiples of `d` counted from the zero time (year 1) -/
 def truncateT (t d : Int) : Int :=
-  if d ≤ 0 then t else t - (t + 62135596800000000000) % d
+  if d ≤ 0 then t else (Int.tdiv t d) * d      -- `_from/duration*duration`: the Unix-epoch grid of the SQL buckets (C08 fix), not time.Truncate
 
 /-- the planners below `FixPeriodPlanner` that run synchronously in the handler: the internal aggregator's
     `process` (stream length), then the database query; the first row reaching the aggregator allocates its slice
